@@ -362,8 +362,8 @@ def run(scn, ch, log=False):
                     # is the task past the pool (resolving / connecting)?  then est counts it
                     if free_total and free_host:
                         waiting = [len(v) for v in conn._waiters.values()]
-                        violate("no_lost_wakeup", "waiter_blocked_with_free_capacity:" + ("after_waiter_cancelled_or_timed_out" if (H.cancelled_while_requesting or any(t_["total"] for t_ in scn["tasks"]))
-                                                                                    else ("no_cancel:several_host_queues" if (lph and len({t_["host"] for t_ in scn["tasks"]}) > 1) else "no_cancel:one_queue")),
+                        violate("no_lost_wakeup", "waiter_blocked_with_free_capacity:" + ("several_host_queues" if (lph and len({t_["host"] for t_ in scn["tasks"]}) > 1)
+                                                                                    else ("after_waiter_cancelled_or_timed_out" if (H.cancelled_while_requesting or any(t_["total"] for t_ in scn["tasks"])) else "no_cancel:one_queue")),
                                 f"task {i} (host {host}) still waits for a connection at quiescence although capacity is free: "
                                 f"in use={len(H.out)} establishing={H.est} limit={limit} per_host={lph}; "
                                 f"connector waiters={waiting} acquired={len(conn._acquired)}")
